@@ -27,6 +27,11 @@ static Level fam_FA(int maxnodes, int depth, bool rich, bool flat = false) {
 static Level fam_FB(int maxnodes, int depth) {
   return {"F-B<=" + std::to_string(maxnodes), [=](const CB &cb) { gen::enum_FB(maxnodes, depth, [&](const gen::Seq &s) { cb(single(gen::print_fl(s))); }); }};
 }
+// sources with a jump to a label that is not defined in the routine (alone, and with the label defined inside a PROGRAM only)
+static Level fam_FB_undefined(int maxnodes) {
+  return {"F-B with an undefined label<=" + std::to_string(maxnodes), [=](const CB &cb) {
+            gen::enum_FB_undefined(maxnodes, 2, [&](const gen::Seq &s) { std::string m = gen::print_fl(s); cb(single(m)); cb(single("PROGRAM f DO\n  la: lb: x0 := 1\nEND\n" + m)); }); }};
+}
 // F-C: definitions x main; mode 0 = one file, 1 = definitions in an included file, 2 = both variants
 static Level fam_FC(int maxdefs, std::vector<int> shapes, int mainnodes, bool rich, bool wrong_arity, int filemode, const std::string &tag) {
   return {"F-C" + tag, [=](const CB &cb) {
@@ -199,20 +204,20 @@ int main(int argc, char **argv) {
   std::vector<int> shapesQ = {0, 1, 2, 4, 6, 7, 11, 15}, shapesAll = all_shapes(), shapesR = {1, 4, 8, 11, 12};
   if (P == "C01") {
     o = orc::oracle_C01;
-    L = {fam_FA(3, 2, true), fam_semladder(T ? 40 : 24), fam_FB(3, 2), fam_FC(2, shapesQ, 1, false, false, 0, "(<=2 defs of 8 shapes, main 1 node)"), fam_FC(1, shapesAll, 2, true, false, 2, "(1 def of 16 shapes, main<=2 nodes, rich args, both file layouts)"), fam_FC(2, shapesQ, 1, true, false, 0, "(<=2 defs of 8 shapes, main 1 node, rich args incl. nested calls)"), fam_FD(6, 1, 6), fam_FA(3, 2, true, true), fam_FC(3, shapesR, 1, false, false, 0, "(<=3 defs of 5 shapes incl. redefinition with another layout, main 1 node)"), fam_FA(4, 2, true), fam_FA(4, 2, true, true)};
-    if (T) { L.push_back(fam_FB(4, 2)); L.push_back(fam_FC(2, shapesAll, 2, false, false, 0, "(<=2 defs of 16 shapes, main<=2 nodes)")); L.push_back(fam_FD(9, 2, 8)); L.push_back(fam_FC(3, shapesQ, 1, false, false, 0, "(<=3 defs of 8 shapes, main 1 node)")); L.push_back(fam_FA(5, 2, false)); L.push_back(fam_FA(5, 2, false, true)); }
+    L = {fam_FA(3, 2, true), fam_semladder(T ? 40 : 24), fam_FB(3, 2), fam_FC(2, shapesQ, 1, false, false, 0, "(<=2 defs of 8 shapes, main 1 node)"), fam_FC(1, shapesAll, 2, true, false, 2, "(1 def of 16 shapes, main<=2 nodes, rich args, both file layouts)"), fam_FC(2, shapesQ, 1, true, false, 0, "(<=2 defs of 8 shapes, main 1 node, rich args incl. nested calls)"), fam_FD(7, 1, 6), fam_FA(3, 2, true, true), fam_FC(3, shapesR, 1, false, false, 0, "(<=3 defs of 5 shapes incl. redefinition with another layout, main 1 node)"), fam_FA(4, 2, true), fam_FA(4, 2, true, true)};
+    if (T) { L.push_back(fam_FB(4, 2)); L.push_back(fam_FC(2, shapesAll, 2, false, false, 0, "(<=2 defs of 16 shapes, main<=2 nodes)")); L.push_back(fam_FD(11, 2, 8)); L.push_back(fam_FC(3, shapesQ, 1, false, false, 0, "(<=3 defs of 8 shapes, main 1 node)")); L.push_back(fam_FA(5, 2, false)); L.push_back(fam_FA(5, 2, false, true)); }
   } else if (P == "C03") {
     o = orc::oracle_C03;
-    L = {fam_unusual(), fam_semladder(T ? 40 : 24), fam_FA(3, 2, true), fam_FB(3, 2), fam_FC(2, shapesQ, 1, false, false, 0, "(<=2 defs of 8 shapes, main 1 node)"), fam_FC(1, shapesAll, 2, true, false, 2, "(1 def of 16 shapes, main<=2 nodes, rich args, both file layouts)"), fam_FC(2, shapesQ, 1, true, false, 0, "(<=2 defs of 8 shapes, main 1 node, rich args incl. nested calls)"), fam_FC(3, shapesR, 1, false, false, 0, "(<=3 defs of 5 shapes incl. redefinition with another layout, main 1 node)"), fam_FD(6, 1, 6)};
-    if (T) { L.push_back(fam_FA(4, 2, true)); L.push_back(fam_FB(4, 2)); L.push_back(fam_FC(2, shapesAll, 2, false, false, 0, "(<=2 defs of 16 shapes, main<=2 nodes)")); L.push_back(fam_FC(3, shapesQ, 1, false, false, 0, "(<=3 defs of 8 shapes, main 1 node)")); L.push_back(fam_FD(9, 2, 8)); }
+    L = {fam_unusual(), fam_semladder(T ? 40 : 24), fam_FB_undefined(T ? 3 : 2), fam_FA(3, 2, true), fam_FB(3, 2), fam_FC(2, shapesQ, 1, false, false, 0, "(<=2 defs of 8 shapes, main 1 node)"), fam_FC(1, shapesAll, 2, true, false, 2, "(1 def of 16 shapes, main<=2 nodes, rich args, both file layouts)"), fam_FC(2, shapesQ, 1, true, false, 0, "(<=2 defs of 8 shapes, main 1 node, rich args incl. nested calls)"), fam_FC(3, shapesR, 1, false, false, 0, "(<=3 defs of 5 shapes incl. redefinition with another layout, main 1 node)"), fam_FD(7, 1, 6)};
+    if (T) { L.push_back(fam_FA(4, 2, true)); L.push_back(fam_FB(4, 2)); L.push_back(fam_FC(2, shapesAll, 2, false, false, 0, "(<=2 defs of 16 shapes, main<=2 nodes)")); L.push_back(fam_FC(3, shapesQ, 1, false, false, 0, "(<=3 defs of 8 shapes, main 1 node)")); L.push_back(fam_FD(11, 2, 8)); }
   } else if (P == "C07") {
     o = [](orc::An &a, vf::Stats &st) { orc::oracle_C07(a, st); };
     L = {fam_FA(3, 2, true), fam_semladder(T ? 40 : 24), fam_FC(3, shapesR, 1, false, false, 2, "(<=3 defs of 5 shapes incl. redefinition with another layout, main 1 node, both file layouts)"), fam_FB(3, 2), fam_FC(2, shapesQ, 1, false, false, 2, "(<=2 defs of 8 shapes, main 1 node, both file layouts)"), fam_FC(1, shapesAll, 2, true, false, 2, "(1 def of 16 shapes, main<=2 nodes, rich args, both file layouts)"), fam_FC(2, shapesQ, 1, true, false, 0, "(<=2 defs of 8 shapes, main 1 node, rich args incl. nested calls)"), fam_FA(4, 2, true)};
     if (T) { L.push_back(fam_FB(4, 2)); L.push_back(fam_FC(2, shapesAll, 2, false, false, 2, "(<=2 defs of 16 shapes, main<=2 nodes, both file layouts)")); L.push_back(fam_FC(3, shapesQ, 1, false, false, 2, "(<=3 defs of 8 shapes, main 1 node, both file layouts)")); L.push_back(fam_FA(5, 2, false)); }
   } else if (P == "C08") {
     o = orc::oracle_C08;
-    L = {fam_FD(9, 1, 8), fam_semladder(T ? 40 : 24), fam_FA(3, 2, true), fam_FB(3, 2), fam_FC(2, shapesQ, 1, false, false, 2, "(<=2 defs of 8 shapes, main 1 node, both file layouts)"), fam_FA(3, 2, true, true)};
-    if (T) { L.push_back(fam_FD(9, 2, 10)); L.push_back(fam_FA(4, 2, true)); L.push_back(fam_FB(4, 2)); L.push_back(fam_FC(2, shapesAll, 2, false, false, 2, "(<=2 defs of 16 shapes, main<=2 nodes, both file layouts)")); }
+    L = {fam_FD(11, 1, 8), fam_semladder(T ? 40 : 24), fam_FA(3, 2, true), fam_FB(3, 2), fam_FC(2, shapesQ, 1, false, false, 2, "(<=2 defs of 8 shapes, main 1 node, both file layouts)"), fam_FA(3, 2, true, true)};
+    if (T) { L.push_back(fam_FD(11, 2, 10)); L.push_back(fam_FA(4, 2, true)); L.push_back(fam_FB(4, 2)); L.push_back(fam_FC(2, shapesAll, 2, false, false, 2, "(<=2 defs of 16 shapes, main<=2 nodes, both file layouts)")); }
   } else if (P == "C16") {
     o = orc::oracle_C16;
     L = {fam_callshapes(2), fam_loopbound(), fam_macroloops(), fam_FA(3, 2, true), fam_FC(2, shapesQ, 1, false, false, 2, "(<=2 defs of 8 shapes, main 1 node, both file layouts)"), fam_callshapes(3)};
@@ -220,7 +225,7 @@ int main(int argc, char **argv) {
   } else if (P == "C19") {
     o = orc::oracle_C19;
     L = {fam_FC(2, shapesQ, 1, false, false, 0, "(<=2 defs of 8 shapes, main 1 node)"), fam_semladder(T ? 40 : 24), fam_FC(1, shapesAll, 2, true, false, 0, "(1 def of 16 shapes, main<=2 nodes, rich args)"), fam_callshapes(2), fam_unusual(), fam_FD(3, 0, 9), fam_FA(3, 2, true)};
-    if (T) { L.push_back(fam_FC(2, shapesAll, 2, false, false, 0, "(<=2 defs of 16 shapes, main<=2 nodes)")); L.push_back(fam_FC(3, shapesQ, 1, false, false, 0, "(<=3 defs of 8 shapes, main 1 node)")); L.push_back(fam_callshapes(3)); L.push_back(fam_FD(9, 1, 8)); }
+    if (T) { L.push_back(fam_FC(2, shapesAll, 2, false, false, 0, "(<=2 defs of 16 shapes, main<=2 nodes)")); L.push_back(fam_FC(3, shapesQ, 1, false, false, 0, "(<=3 defs of 8 shapes, main 1 node)")); L.push_back(fam_callshapes(3)); L.push_back(fam_FD(11, 1, 8)); }
   } else if (P == "C20") {
     o = orc::oracle_C20;
     L = {fam_literals(), fam_bigvalues(2)};
